@@ -64,6 +64,19 @@ fn repo_test_patterns(limit: usize) -> Vec<String> {
 
 /// returns (artifacts found, total executions requested) or Err(message) for infrastructure trouble
 pub fn run(c: &Campaign, seeds: &[StrCase]) -> Result<(Vec<Found>, u64), String> {
+    let mut files: Vec<Vec<u8>> = seeds
+        .iter()
+        .map(|s| fuzz_decode::encode(s.dialect == Dialect::Xsd, &s.pattern, &s.flags, s.inputs.first().map(|x| x.as_str()).unwrap_or(""), s.replacements.first().map(|x| x.as_str()).unwrap_or("")))
+        .collect();
+    for p in repo_test_patterns(400) {
+        files.push(fuzz_decode::encode(false, &p, "", "abc", "$1"));
+    }
+    let (raw, execs) = run_raw(c, &files, 96)?;
+    Ok((raw.into_iter().filter_map(|(kind, bytes)| to_case(&bytes, &format!("libfuzzer-{kind}")).map(|case| Found { kind, case })).collect(), execs))
+}
+
+/// the campaign itself: artifacts as (kind, bytes)
+pub fn run_raw(c: &Campaign, seed_files: &[Vec<u8>], max_len: u32) -> Result<(Vec<(String, Vec<u8>)>, u64), String> {
     let hdir = verif_dir().join("harness");
     let fdir = verif_dir().join("fuzz");
     let build = Command::new("cargo")
@@ -90,42 +103,54 @@ pub fn run(c: &Campaign, seeds: &[StrCase]) -> Result<(Vec<Found>, u64), String>
         let arts = work.join(format!("artifacts{j}"));
         std::fs::create_dir_all(&corpus).map_err(|e| e.to_string())?;
         std::fs::create_dir_all(&arts).map_err(|e| e.to_string())?;
-        let mut k = 0;
-        for s in seeds {
-            let bytes = fuzz_decode::encode(s.dialect == Dialect::Xsd, &s.pattern, &s.flags, s.inputs.first().map(|x| x.as_str()).unwrap_or(""), s.replacements.first().map(|x| x.as_str()).unwrap_or(""));
+        for (k, bytes) in seed_files.iter().enumerate() {
             let _ = std::fs::write(corpus.join(format!("seed{k}")), bytes);
-            k += 1;
         }
-        for p in repo_test_patterns(400) {
-            let _ = std::fs::write(corpus.join(format!("seed{k}")), fuzz_decode::encode(false, &p, "", "abc", "$1"));
-            k += 1;
-        }
-        let child = Command::new(&bin)
-            .arg(&corpus)
-            .arg(format!("-runs={}", c.runs_per_job))
-            .arg(format!("-seed={}", c.seed.wrapping_mul(1000).wrapping_add(j as u64 + 1) % 4_000_000_000))
-            .arg("-max_len=96")
-            .arg("-len_control=0")
-            .arg(format!("-timeout={}", c.timeout_s))
-            .arg("-rss_limit_mb=4096")
-            .arg(format!("-artifact_prefix={}/", arts.display()))
-            .stdout(Stdio::null())
-            .stderr(Stdio::null())
-            .spawn()
-            .map_err(|e| format!("cannot start the fuzz binary: {e}"))?;
-        children.push((child, arts));
+        children.push((corpus, arts, j));
     }
+    // Each job runs its executions in slices over one growing corpus directory: libFuzzer stops at the first artifact
+    // (a timeout on an exponential pattern is common), and a stopped slice must not cost the job its remaining runs.
+    const SLICES: u64 = 6;
     let mut found = vec![];
-    for (mut child, arts) in children {
-        let _ = child.wait();
-        if let Ok(rd) = std::fs::read_dir(&arts) {
+    let results: Vec<Result<(), String>> = std::thread::scope(|sc| {
+        let hs: Vec<_> = children
+            .iter()
+            .map(|(corpus, arts, j)| {
+                let bin = &bin;
+                sc.spawn(move || {
+                    for slice in 0..SLICES {
+                        let status = Command::new(bin)
+                            .arg(corpus)
+                            .arg(format!("-runs={}", c.runs_per_job / SLICES))
+                            .arg(format!("-seed={}", (c.seed.wrapping_mul(1000).wrapping_add(*j as u64 * 10 + slice + 1)) % 4_000_000_000))
+                            .arg(format!("-max_len={max_len}"))
+                            .arg("-len_control=0")
+                            .arg(format!("-timeout={}", c.timeout_s))
+                            .arg("-rss_limit_mb=4096")
+                            .arg(format!("-artifact_prefix={}/", arts.display()))
+                            .stdout(Stdio::null())
+                            .stderr(Stdio::null())
+                            .status();
+                        if let Err(e) = status {
+                            return Err(format!("cannot start the fuzz binary: {e}"));
+                        }
+                    }
+                    Ok(())
+                })
+            })
+            .collect();
+        hs.into_iter().map(|h| h.join().unwrap_or_else(|_| Err("fuzz job thread panicked".into()))).collect()
+    });
+    for r in results {
+        r?;
+    }
+    for (_, arts, _) in &children {
+        if let Ok(rd) = std::fs::read_dir(arts) {
             for e in rd.filter_map(|e| e.ok()) {
                 let name = e.file_name().to_string_lossy().to_string();
                 let kind = name.split('-').next().unwrap_or("").to_string();
                 if let Ok(bytes) = std::fs::read(e.path()) {
-                    if let Some(case) = to_case(&bytes, &format!("libfuzzer-{kind}")) {
-                        found.push(Found { kind, case });
-                    }
+                    found.push((kind, bytes));
                 }
             }
         }
